@@ -155,6 +155,7 @@ def run_thorough(F, chk):
     import witness
     res = witness.run()
     r = chk.rule("R-C10-a-w", "T6", "const assertion in the witness crate: MAX_BYTES_OUT >= 2 + MAX_FDS_OUT*(2+58)", floor=1)
+    r.only_cfgs = {"Q"}
     if res.get("__build__"):
         r.violation("witness const assertion", "witness/src/lib.rs", "the witness crate no longer builds: " + res["__build__"][-300:])
     else:
